@@ -15,7 +15,7 @@ def run(tier):
     rnd = random.Random(common.seed() + 12)
     n = 160 if tier == 'quick' else 3000
     jobs = []
-    for k, j in enumerate(ec.random_jobs(rnd, n, label='rerun', gen_kw=dict(p_err=0.45, p_items=0.2, p_sub=0.15, p_retry=0.1, p_cmd=0.03))):
+    for k, j in enumerate(ec.random_jobs(rnd, n, label='rerun', gen_kw=dict(partial_joins=False, p_err=0.45, p_items=0.2, p_sub=0.15, p_retry=0.1, p_cmd=0.03))):
         P = j['prog']
         # second attempt outcome: succeed / fail again
         for tag, oc in list(P.oracle.items()):
